@@ -62,6 +62,16 @@ def obligations(tier):
                 obs.append({'h': 'validate', 'disp': disp, 'params': [[frag, True, vk], ['integer', True, vb]], 'passing': passing, 'extra': 'reqall'})
         for frag, vk, passing in it.product(('integer', 'enum'), ('int', 'str'), ('pos', 'named')):
             obs.append({'h': 'twice', 'disp': disp, 'frag': frag, 'vk': vk, 'passing': passing})
+        # positional-only signatures, and an excluded parameter in the middle of the signature (both kinds of parameters)
+        for (fa, va), (fb, vb) in it.product((('integer', 'int'), ('integer', 'str'), ('enum', 'int'), ('string', 'str')),
+                                             (('integer', 'int'), ('integer', 'absent'), ('enum', 'str'))):
+            for po in (0, 1):
+                for extra in ('excluded_mid', 'none', 'ctx'):
+                    if not po and extra != 'excluded_mid':
+                        continue
+                    for passing in (('pos',) if po else ('pos', 'named')):
+                        obs.append({'h': 'validate', 'disp': disp, 'params': [[fa, False, va], [fb, True, vb]], 'passing': passing,
+                                    'extra': extra, 'po': po})
         for extra in ('ctx', 'excluded', 'unknown', 'strict'):
             for frag, vk, passing in it.product(('integer', 'enum', 'string'), ('int', 'str'), ('pos', 'named')):
                 obs.append({'h': 'validate', 'disp': disp, 'params': [[frag, False, vk]], 'passing': passing, 'extra': extra})
@@ -143,19 +153,26 @@ def h_validate(ob):
         schema = {'type': 'object', 'properties': props, 'required': schema_required}
         if extra == 'strict':
             schema['additionalProperties'] = False
+        po = bool(ob.get('po'))                  # every parameter positional-only
+        if extra == 'excluded_mid':               # the excluded parameter sits in the MIDDLE of the signature
+            extra, dep_mid = 'excluded', True
+        else:
+            dep_mid = False
         validator = jsv_mod.JsonSchemaValidator(exclude_param=(lambda name, ann, default: name == 'dep') if extra == 'excluded' else None)
         log = []
         sig = []
         if extra == 'ctx':
             sig.append('ctx')
-        for n, p in zip(names, params):
+        for i, (n, p) in enumerate(zip(names, params)):
+            if dep_mid and i == 1:
+                sig.append("dep='injected'")
             sig.append(n + ("='D'" if p[1] else ''))
-        if extra == 'excluded':
+        if extra == 'excluded' and "dep='injected'" not in sig:
             sig.append("dep='injected'")
         allnames = [s.split('=')[0] for s in sig]
         kw = 'async def' if is_async else 'def'
         ns = {'log': log}
-        exec(f"{kw} meth({', '.join(sig)}):\n    log.append([{', '.join(allnames)}])\n    return [{', '.join(allnames)}]\n", ns)
+        exec(f"{kw} meth({', '.join(sig + (['/'] if po and sig else []))}):\n    log.append([{', '.join(allnames)}])\n    return [{', '.join(allnames)}]\n", ns)
         meth = validator.validate(ns['meth'], schema=schema)
         wire = Wire(env)
         d = (pjrpc.server.AsyncDispatcher if is_async else pjrpc.server.Dispatcher)(**wire.kwargs())
@@ -228,13 +245,8 @@ def h_validate(ob):
             return ['-32602']
         if 'error' in rdoc:
             raise Violation('conforming-call-refused:' + str(rdoc['error'].get('code')), (schema, sig, wire_params, rdoc))
-        want = []
-        if extra == 'ctx':
-            want.append(CTX)
-        for n, v in zip(names, vals):
-            want.append(v[1] if n in provided else 'D')
-        if extra == 'excluded':
-            want.append('injected')
+        byname = {n: (v[1] if n in provided else 'D') for n, v in zip(names, vals)}
+        want = [CTX if a == 'ctx' else ('injected' if a == 'dep' else byname[a]) for a in allnames]
         if len(log) != 1 or not same_json(log[0], want):
             raise Violation('arguments-changed-or-not-executed-once', (schema, wire_params, log, want))
         if not same_json(rdoc.get('result'), want):
